@@ -31,7 +31,8 @@ MUTATORS = ('rrule', 'rdate', 'exrule', 'exdate')
 
 
 def rnd_date(rng):
-    return U.BASE + D.timedelta(days=rng.randrange(25), hours=rng.choice([0, 0, 12, 1]))
+    # explicit dates may carry a fraction of a second (rule occurrences never do): 9:00:00.25 is neither 9:00:00 nor excluded by it
+    return U.BASE + D.timedelta(days=rng.randrange(25), hours=rng.choice([0, 0, 12, 1]), microseconds=rng.choice([0, 0, 0, 250000, 999999]))
 
 
 def model_list(m):
@@ -272,6 +273,13 @@ def stale_iterator_sweep(ctx, R):
                                   ['iter_part', k_new], ['resume_old', 60], ['check', None], ['resume_live', 60], ['count', None], ['iter_full', None]]
                         run_history(ctx, R, random.Random(0), cache, 0, script)
                         ctx.count('stale_iterator_histories')
+                        # the same, but the first thing asked after the old iterator has run out is a cheap query
+                        # (no full pass in between that would repair a stale length or cache)
+                        for q in (['count', None], ['getitem', -1], ['contains', [U.iso(st + D.timedelta(days=400)), False]]):
+                            script = [['rrule', U.kw_json({'freq': R.DAILY, 'dtstart': st, 'count': n})], ['iter_part', k_old], mod,
+                                      ['iter_part', k_new], ['resume_old', 60], q, ['count', None], ['check', None]]
+                            run_history(ctx, R, random.Random(0), cache, 0, script)
+                            ctx.count('stale_iterator_histories')
 
 
 def run(ctx):
